@@ -30,9 +30,15 @@ def handle (j : Json) : Json :=
     let st : Nat → String → Bool := fun v s => !(bad.contains (v, s))
     let o := parseObj (getObj j "obj")
     Json.mkObj [("all", validateAll tableT st fuel o), ("old", validateOld tableT st fuel o), ("flat", validateFlat tableT st o)]
+  | "children" =>
+    -- content model verdict of the sequence matcher for class `cls` on a child-tag word
+    let c := getNat j "cls"
+    let X := NmlVerif.Gen.Xsd.types
+    Json.mkObj [("seqShaped", seqShaped X X.length c), ("seqOrAll", seqOrAllShaped X X.length c), ("ok", matchSeq (fullElems X X.length c) (natList (getObj j "word")))]
   | "agree" => Json.mkObj [("agree", agree tableT NmlVerif.Gen.Xsd.types),
       ("violations", Json.arr ((agreeViolations tableT NmlVerif.Gen.Xsd.types).map (fun (n : Nat) => Json.num n)).toArray),
-      ("facets", facetsAgree NmlVerif.Gen.Xsd.schemaFacets NmlVerif.Gen.Xsd.bindingFacets)]
+      ("facets", facetsAgree NmlVerif.Gen.Xsd.schemaFacets NmlVerif.Gen.Xsd.bindingFacets),
+      ("order", contentOrderAgrees tableT NmlVerif.Gen.Xsd.types)]
   | _ => Json.mkObj [("err", "op")]
 
 def main : IO Unit := loop handle
